@@ -997,7 +997,7 @@ def parse_sections(body, where):
     cur = None
     for line in body.split('\n'):
         s = line.strip()
-        m = re.match(r'^@(ret|sig|loop|before|after|start|end)\b(.*)$', s)
+        m = re.match(r'^@(ret|sig|loop|before|after|start|end|header|drop)\b(.*)$', s)
         if m:
             kind = m.group(1)
             rest = m.group(2).strip()
@@ -1015,6 +1015,11 @@ def parse_sections(body, where):
                 args = rest.split()
                 if len(args) != 1:
                     raise ExtractError('bad-template', '%s: @ret needs a name' % where)
+            elif kind == 'drop':
+                m2 = re.match(r'^`(.*)`\s*$', rest)
+                if not m2:
+                    raise ExtractError('bad-template', '%s: @drop needs `statement prefix`' % where)
+                args = [m2.group(1)]
             cur = [kind, args, []]
             sections.append(cur)
         else:
@@ -1029,11 +1034,67 @@ def parse_sections(body, where):
 def extract_item(repo_root, rel, container, kind, name, opts, unit_rules, sections, where):
     sf = SourceFile.get(repo_root, rel)
     nth = int(opts['nth']) if 'nth' in opts else None
-    it = sf.find(container, kind, name, nth)
-    raw = sf.text[it.start:it.end]
-    sha = hashlib.sha256(raw.encode()).hexdigest()
-    text = strip_comments(raw)
     log = []
+    if kind == 'region':
+        # R18 region extraction: the block of the n-th match arm `ARM =>` inside function `name` is lifted into a
+        # function whose header (parameters = the region's free variables) is given by the template (@header);
+        # statements listed with @drop (bindings that became parameters) are removed.  Everything is logged.
+        it = sf.find(container, 'fn', name, None)
+        ftxt = sf.text[it.start:it.end]
+        ftoks = lex(ftxt)
+        want = norm_tokens(opts.get('arm', ''))
+        if not want:
+            raise ExtractError('bad-template', '%s: region needs arm=' % where)
+        sgt = [(k, t) for k, t in enumerate(ftoks) if t[0] not in ('ws', 'lcomment', 'bcomment')]
+        hits = []
+        for a in range(len(sgt)):
+            acc = ''
+            prev = None
+            b = a
+            while b < len(sgt) and len(acc) < len(want):
+                u = sgt[b][1]
+                if prev is not None and prev[0] in ('id', 'num', 'life') and u[0] in ('id', 'num', 'life'):
+                    acc += ' '
+                acc += u[1]
+                prev = u
+                b += 1
+            if acc == want and b < len(sgt) and sgt[b][1][1] == '{':
+                hits.append(sgt[b][0])
+        armn = int(opts.get('armnth', '1'))
+        if len(hits) < armn:
+            raise ExtractError('anchor-lost', '%s: arm `%s` #%d not found in fn %s (%d hits)' % (where, opts['arm'], armn, name, len(hits)))
+        ob = hits[armn - 1]
+        cb = match_close(ftoks, ob)
+        raw = ftxt[ftoks[ob][2]:ftoks[cb][3]]
+        sha = hashlib.sha256(raw.encode()).hexdigest()
+        body = strip_comments(raw)
+        header = None
+        rest_sections = []
+        for sk, sa, sb in sections:
+            if sk == 'header':
+                header = strip_comments(sb).strip()
+            elif sk == 'drop':
+                btoks = lex(body)
+                k = find_anchor(body, btoks, sa[0], 1, where + ' @drop')
+                e = stmt_end(btoks, k)
+                log.append(('R18', 'dropped statement `%s`' % norm_ws(body[btoks[k][2]:btoks[e][3]])))
+                body = body[:btoks[k][2]] + body[btoks[e][3]:]
+            else:
+                rest_sections.append((sk, sa, sb))
+        if not header:
+            raise ExtractError('bad-template', '%s: region needs @header' % where)
+        log.append(('R18', 'arm `%s` #%d of fn %s lifted into `%s`' % (opts['arm'], armn, name, norm_ws(header)[:120])))
+        text = header + ' ' + body
+        sections = rest_sections
+        start_line, end_line = sf.line_of(it.start + ftoks[ob][2]), sf.line_of(it.start + ftoks[cb][3])
+        kind_eff = 'fn'
+    else:
+        it = sf.find(container, kind, name, nth)
+        raw = sf.text[it.start:it.end]
+        sha = hashlib.sha256(raw.encode()).hexdigest()
+        text = strip_comments(raw)
+        start_line, end_line = sf.line_of(it.start), sf.line_of(it.end)
+        kind_eff = kind
     rules = list(unit_rules)
     if 'rules' in opts:
         rules = parse_rules(opts['rules']) + rules   # per-extract rules run first
@@ -1044,14 +1105,14 @@ def extract_item(repo_root, rel, container, kind, name, opts, unit_rules, sectio
         args = dict(args)
         args['_repo'] = repo_root
         text = RULES[rid](text, args, log)
-    if kind == 'fn':
+    if kind_eff == 'fn':
         text = splice(text, sections, where)
     elif sections:
         raise ExtractError('bad-template', '%s: sections on a non-fn item' % where)
     meta = {
         'item': '%s | %s | %s %s' % (rel, container.strip(), kind, name),
         'name': name, 'kind': kind, 'container': container.strip(), 'file': rel,
-        'lines': [sf.line_of(it.start), sf.line_of(it.end)],
+        'lines': [start_line, end_line],
         'sha256': sha, 'attrs': it.attrs, 'rules': ['%s: %s' % r for r in log],
     }
     return text, meta
